@@ -198,3 +198,25 @@ Definition spec_cmp (op : cmpop) (a b : num) : res bool :=
           | OpNe, Lt | OpNe, Gt => true
           | _, _ => false end)
   end.
+
+(* --- modulo: numerictower.go IntegerDo / UintegerDo with op = Modulo (the `mod` builtin).
+   A Go integer division by zero panics; CallUserFunction recovers it: Err. --- *)
+Definition imod (i j : Z) : res num := if j =? 0 then Err else Ok (NInt (Z.rem i j)).
+Definition umod (u v : Z) : res num := if v =? 0 then Err else Ok (NUint (Z.rem u v)).
+Definition mod_do (a b : num) : res num :=
+  match a with
+  | NFloat _ => Err                      (* WrongType *)
+  | NUint u =>
+      match b with
+      | NFloat _ => Err
+      | NUint v => umod u v
+      | NInt j => umod u (wrapu64 j)
+      | NChar c => umod u (wrapu64 c)
+      end
+  | NInt i | NChar i =>
+      match b with
+      | NFloat _ => Err
+      | NUint v => umod (wrapu64 i) v
+      | NInt j | NChar j => imod i j
+      end
+  end.
